@@ -30,6 +30,10 @@ type txCase struct {
 	Tx    string    `json:"tx"`   // full transaction CBOR
 	Utxo  []utxoEnt `json:"utxo"` // mock ledger state (inputs not listed are unresolved)
 	Label string    `json:"label"`
+	// History: transactions the SAME process validates (in this order) before
+	// this one.  Signature validation is specified as a function of the
+	// transaction and the ledger state alone; a history must not change it.
+	History []txCase `json:"history,omitempty"`
 }
 
 // ---- keys and hashes ------------------------------------------------------------
